@@ -232,13 +232,21 @@ def extract_fn(repo, default_file, f):
         # only for functions without a tail expression: ghost block just before the closing brace
         inserts.append((len(body) - 1, '    proof {\n' + f['at_end'].rstrip() + '\n    }\n'))
     for bs in f.get('before_stmt', []):
-        # last resort: anchor on normalised statement text
-        idx = body.find(bs['text'])
-        if idx < 0: raise LostAnchor('statement anchor `%s` of `%s` not found' % (bs['text'], f['fn']))
-        if bs.get('ghost'):   # ghost statements inserted verbatim (e.g. `let ghost c1 = carry;`) followed by an optional proof block
-            inserts.append((idx, bs['ghost'].rstrip() + '\n        ' + ('proof {\n' + bs['proof'].rstrip() + '\n        }\n        ' if bs.get('proof') else '')))
-        else:
-            inserts.append((idx, 'proof {\n' + bs['proof'].rstrip() + '\n        }\n        '))
+        # last resort: anchor on statement text (whitespace-insensitive); `after = true` inserts behind the anchor text
+        pat = bs['regex'] if bs.get('regex') else r'\s*'.join(re.escape(t) for t in bs['text'].split())
+        ms = list(re.finditer(pat, body))
+        if len(ms) <= bs.get('nth', 0):
+            # soft anchor: the ghost text is simply not inserted. If the proof then fails, the function text has
+            # necessarily changed w.r.t. the baseline (it verified there), and the failing obligation is reported.
+            meta.setdefault('skipped_anchors', []).append(bs.get('regex') or bs['text'])
+            continue
+        m = ms[bs.get('nth', 0)]
+        idx = m.end() if bs.get('after') else m.start()
+        txt = ''
+        if bs.get('ghost'): txt += bs['ghost'].rstrip() + '\n        '
+        if bs.get('proof'): txt += 'proof {\n' + bs['proof'].rstrip() + '\n        }\n        '
+        if bs.get('after'): txt = '\n        ' + txt
+        inserts.append((idx, txt))
     for off, text in sorted(inserts, key=lambda x: x[0], reverse=True):
         body = body[:off] + text + body[off:]
     deviations = []
